@@ -1,0 +1,11 @@
+//go:build verif && linux
+
+package fuse
+
+import "bazil.org/fuse/fs"
+
+// VerifRoot returns the root node of the file system, so that the node
+// methods can be exercised without mounting.
+func VerifRoot() fs.Node {
+	return root(0)
+}
